@@ -60,11 +60,18 @@ let rec print_tok b = function
 
 let () =
   let ic = open_in Sys.argv.(1) in
+  let n = ref 0 and ended = ref false in
   (try while true do
       let line = input_line ic in
       if String.length line > 0 then begin
         match String.split_on_char ' ' line with
+        | "END" :: k :: _ ->
+          (* the harness' end marker: the file is complete only if it carries the number of records read *)
+          if int_of_string k <> !n then begin
+            prerr_endline (Printf.sprintf "case file announces %s records, %d read" k !n); exit 3 end;
+          ended := true
         | mode :: id :: rest ->
+          if !ended then begin prerr_endline "records after the END marker"; exit 3 end;
           let rest = List.filter (fun s -> s <> "") rest in
           let (t, _) = parse_tok rest in
           let out = match mode with
@@ -74,8 +81,11 @@ let () =
             | _ -> failwith "bad mode" in
           let b = Buffer.create 4096 in
           print_tok b out;
+          incr n;
           print_string id; print_char ' '; print_string (Buffer.contents b); print_newline ()
         | _ -> ()
       end
     done with End_of_file -> ());
-  close_in ic
+  close_in ic;
+  if not !ended then begin prerr_endline "case file without END marker (truncated?)"; exit 3 end;
+  Printf.printf "END %d\n" !n
